@@ -7,41 +7,44 @@ import (
 
 // Profile steers a run into the region one property is about. All oracles run in every profile.
 type Profile struct {
-	Name       string
-	Blocks     [2]int         // run length range
-	OpW        map[string]int // operation weights
-	TxPerBlock [2]int
-	FaultFree  float64 // probability that a run has no faults at all
-	Faults     map[string]float64
-	Vals       []int // candidate validator counts
-	ValW       []int
-	Witnesses  [2]int
-	Candidates [2]int
-	BigGaps    float64 // probability per block of a huge time gap (when faults on)
+	Name        string
+	Blocks      [2]int         // run length range
+	OpW         map[string]int // operation weights
+	TxPerBlock  [2]int
+	FaultFree   float64 // probability that a run has no faults at all
+	Faults      map[string]float64
+	Vals        []int // candidate validator counts
+	ValW        []int
+	Witnesses   [2]int
+	Candidates  [2]int
+	BigGaps     float64 // probability per block of a huge time gap (when faults on)
 	OneTxBlocks float64 // probability that the run uses exactly one user tx per block
-	AvoidKnown float64 // probability that the run avoids trigger classes of known findings
+	AvoidKnown  float64 // probability that the run avoids trigger classes of known findings
+	ForkProb    float64 // per block: isolate one transaction's effect with a counterfactual fork
+	LongFrac    float64 // fraction of runs that last > 2000 blocks (bridge-deposit rounds have a 2000-block window)
 }
 
 // Gen turns (seed, profile) into a genesis configuration and a stream of HeightPlans.
 // It is the only place where randomness exists; the executor is PRNG-free.
 type Gen struct {
-	Seed   uint64
-	P      *Profile
-	C      *Chain
+	Seed                                            uint64
+	P                                               *Profile
+	C                                               *Chain
 	rGen, rNet, rClock, rCrash, rWork, rComet, rBug *Rng
-	nextIntent int
-	NoFaults   bool
-	Avoid      bool // avoid trigger classes of known findings
-	OneTx      bool
-	TotalBlocks int
-	Quiet      bool // quiet period: all faults off
+	nextIntent                                      int
+	NoFaults                                        bool
+	Avoid                                           bool // avoid trigger classes of known findings
+	OneTx                                           bool
+	TotalBlocks                                     int
+	Quiet                                           bool // quiet period: all faults off
 	// fault state
-	down      map[int]int // node -> heights it stays down
-	isolated  map[int]int // node -> heights it stays partitioned away (lags)
-	byz       map[int]bool
-	w         *Workload
-	baseDtMs  int64
-	TimeAims  []int64 // unix-ms instants the clock fault likes to hit (deadlines), maintained by the workload
+	down     map[int]int // node -> heights it stays down
+	isolated map[int]int // node -> heights it stays partitioned away (lags)
+	byz      map[int]bool
+	w        *Workload
+	baseDtMs int64
+	TimeAims []int64 // unix-ms instants the clock fault likes to hit (deadlines), maintained by the workload
+	Long     bool    // long run: active phase, ~1900 idle blocks, active phase
 }
 
 func NewGen(seed uint64, p *Profile) *Gen {
@@ -57,12 +60,25 @@ func NewGen(seed uint64, p *Profile) *Gen {
 	g.Avoid = g.rGen.Chance(p.AvoidKnown)
 	g.OneTx = g.rGen.Chance(p.OneTxBlocks)
 	g.TotalBlocks = int(g.rGen.Range(int64(p.Blocks[0]), int64(p.Blocks[1])))
+	if g.rGen.Chance(p.LongFrac) {
+		g.Long = true
+		g.TotalBlocks = int(g.rGen.Range(2060, 2180))
+	}
 	g.baseDtMs = Pick(g.rGen, []int64{1000, 2000, 5000, 6000, 30000})
 	return g
 }
 
+// Idle: the middle of a long run (nothing but empty blocks while the 2000-block deposit windows run).
+func (g *Gen) Idle() bool {
+	if !g.Long || g.C == nil {
+		return false
+	}
+	h := g.C.Height() + 1
+	return h > 70 && h < 1990
+}
+
 func (g *Gen) fault(name string) bool {
-	if g.NoFaults || g.Quiet {
+	if g.NoFaults || g.Quiet || g.Idle() {
 		return false
 	}
 	return g.rNet.Chance(g.P.Faults[name])
@@ -72,11 +88,17 @@ func (g *Gen) Genesis() *GenesisCfg {
 	r := g.rGen
 	p := g.P
 	nv := p.Vals[r.Weighted(p.ValW)]
+	if g.Long {
+		nv = Pick(r, []int{1, 1, 3})
+	}
 	cfg := &GenesisCfg{
 		ChainID:     "layersim-1",
 		GenesisUnix: 1_700_000_000 + r.Int64n(1_000_000),
 		Witnesses:   int(r.Range(int64(p.Witnesses[0]), int64(p.Witnesses[1]))),
 		Candidates:  int(r.Range(int64(p.Candidates[0]), int64(p.Candidates[1]))),
+	}
+	if g.Long {
+		cfg.Witnesses, cfg.Candidates = 0, 0
 	}
 	// stake distribution
 	switch r.Intn(4) {
@@ -160,6 +182,13 @@ func (g *Gen) Genesis() *GenesisCfg {
 				}
 			}
 			cfg.GenDelegations = append(keep, GenDelegation{Acct: i, Val: val, Amount: amt})
+		}
+	}
+	if g.Long {
+		for i := range cfg.GenDelegations {
+			if cfg.GenDelegations[i].Amount > 20_000_000 {
+				cfg.GenDelegations[i].Amount = cfg.GenDelegations[i].Amount/50 + 1_000_000
+			}
 		}
 	}
 	cfg.MaxValidators = Pick(r, []uint32{100, 100, 100, uint32(nv), uint32(nv)}) // never below the genesis validator count (a bonded validator outside the active set is not a reachable state)
@@ -456,6 +485,17 @@ func (g *Gen) Next() (*HeightPlan, error) {
 
 	// workload
 	p.Deliver = g.w.intentsFor(h, p)
+	if g.P.ForkProb > 0 && len(p.Deliver) > 0 && g.rWork.Chance(g.P.ForkProb) {
+		var cands []int
+		for _, d := range p.Deliver {
+			if contains(d.To, p.Proposer) {
+				cands = append(cands, d.Intent.ID)
+			}
+		}
+		if len(cands) > 0 {
+			p.ForkIntent = Pick(g.rWork, cands)
+		}
+	}
 	if g.fault("tiny_block") {
 		p.MaxTxs = g.rBug.Intn(2)
 		c.Stats.Fault("F11_tiny_block")
@@ -473,7 +513,14 @@ func (g *Gen) Next() (*HeightPlan, error) {
 
 func (g *Gen) drawDt(h int64) int64 {
 	r := g.rClock
-	if g.NoFaults || g.Quiet {
+	if g.Quiet || g.Idle() {
+		return g.baseDtMs
+	}
+	if g.NoFaults {
+		// fault-free runs still need the occasional long interval (12 h claim age, dispute periods) to make progress
+		if g.Long && h > 2000 && r.Chance(0.05) {
+			return 12*3600_000 + 1000
+		}
 		return g.baseDtMs
 	}
 	// aim at a deadline if one is near enough
@@ -537,3 +584,6 @@ func (g *Gen) drawProposalMutation() ProposalMutation {
 	lists := []string{"op_addrs", "evm_addrs", "vs_ops", "vs_ts", "vs_sigs", "oa_ops", "oa_att", "oa_snap"}
 	return ProposalMutation{Kind: Pick(r, kinds), List: Pick(r, lists), Index: r.Intn(8)}
 }
+
+// IsLong tells whether the run a seed generates under a profile is a long (> 2000 block) run.
+func IsLong(seed uint64, p *Profile) bool { return NewGen(seed, p).Long }
